@@ -52,6 +52,9 @@ pub enum Cause {
     /// servers: the handshake imposed a keep-alive of 1 s and the peer goes silent (real time: the case waits 2.7 s);
     /// not part of `causes()`: enumerated separately, after the last step of every scenario
     KeepAlive,
+    /// clients with keep-alive 1 s: the application closes and the teardown takes 1.3 s of real time (the Stop notification
+    /// is held), so that a tick of the client's keep-alive task falls into it; enumerated separately
+    AppCloseSlow,
 }
 
 #[derive(Clone, Copy, Debug, PartialEq, Eq, Hash, Serialize, Deserialize)]
@@ -133,7 +136,7 @@ fn class_of(s: &StopKind) -> Class {
 
 fn expected(cause: Cause, role: Role) -> Class {
     match cause {
-        Cause::PeerClose | Cause::ReadError | Cause::WriteError | Cause::AppClose(_) | Cause::AckThenClose => Class::Gone,
+        Cause::PeerClose | Cause::ReadError | Cause::WriteError | Cause::AppClose(_) | Cause::AckThenClose | Cause::AppCloseSlow => Class::Gone,
         Cause::Garbage | Cause::Oversize | Cause::WrongAck | Cause::PubRelUnknown | Cause::UnknownAlias | Cause::DupId | Cause::Unexpected | Cause::KeepAlive => Class::Protocol,
         Cause::HandlerErr | Cause::HandlerErrLate | Cause::CtlErr | Cause::BackpressureErr => Class::Error,
         Cause::PeerDisconnect => {
@@ -268,6 +271,13 @@ async fn inject(c: &Case, w: &mut World) -> bool {
             }
             bytes = Some(w.eut.encode(&P5::Disconnect(s5::Disc5::default()), &[]));
         }
+        Cause::AppCloseSlow => {
+            if w.stalled {
+                must_end = false;
+            }
+            w.eut.app_close(0, 0);
+            ntex::time::sleep(ntex::time::Millis(1300)).await;
+        }
         Cause::KeepAlive => {
             // nothing arrives any more: the 1 s keep-alive of the handshake (1 s timer wheel) has expired well before 2.7 s
             // (behind a stalled peer the dispatcher sits in its back-pressure state and runs no keep-alive timer: as for
@@ -328,6 +338,10 @@ async fn run_with(c: Case, limit: u16, steps: Vec<Op>, write_hw: usize) -> Resul
         if c.scenario == 11 {
             cfg.v3.hold_factory = true;
             cfg.v5.hold_factory = true;
+        }
+        if c.cause == Cause::AppCloseSlow {
+            cfg.v3.connect.keep_alive = 1;
+            cfg.v5.connect.keep_alive = 1;
         }
         if c.cause == Cause::KeepAlive {
             cfg.v3.connect.keep_alive = 10;
@@ -614,6 +628,10 @@ pub fn all_cases(thorough: bool) -> Vec<Case> {
                         }
                     }
                 }
+                // a slow teardown after a local close on a client with a keep-alive task (real time)
+                if !role.is_server() && usize::from(cut) == steps.len() && matches!(sc, 0 | 1 | 3) {
+                    out.push(Case { role, scenario: sc, cut, byte: None, cause: Cause::AppCloseSlow, hold_stop: true, stop_fail: false });
+                }
                 // keep-alive expiry (real time) after the last step of the scenario, server roles
                 if role.is_server() && usize::from(cut) == steps.len() && sc != 11 {
                     out.push(Case { role, scenario: sc, cut, byte: None, cause: Cause::KeepAlive, hold_stop: false, stop_fail: false });
@@ -684,7 +702,7 @@ pub fn run(ctx: &Ctx, started: Instant) -> i32 {
         rule: format!(
             "grid of {total} cases: base scenarios {names:?} x every step index (cause injected after 0..n steps) x causes {{peer close, read error, write error, malformed Remaining Length, frame above the inbound maximum, unsolicited PUBACK, packet type the role never receives, \
              failing publish handler (at once, or after having been suspended while older handlers still run), control service failing on a back-pressure notification, application close / force_close (v5 also close_with_reason / close_with_no_reason), peer DISCONNECT; v5: unknown topic alias; v3 server: PUBREL with unknown id, duplicate QoS 1 id; \
-             servers: failing protocol handler; servers, after the last step of each scenario, in real time: keep-alive expiry (handshake keep-alive 1 s, silent peer)}} x Stop notification handled at once / held open / answered with an error x four roles; for peer close and read error additionally every byte offset 1..39 inside the inbound packet being delivered (quick: scenarios 0-2 and 7; thorough: all). \
+             servers: failing protocol handler; servers, after the last step of each scenario, in real time: keep-alive expiry (handshake keep-alive 1 s, silent peer); clients with keep-alive 1 s, in real time: application close with a teardown of 1.3 s}} x Stop notification handled at once / held open / answered with an error x four roles; for peer close and read error additionally every byte offset 1..39 inside the inbound packet being delivered (quick: scenarios 0-2 and 7; thorough: all). \
              Oracle: exactly one Stop of the class the cause demands (protocol / application error / peer gone; a cause that cannot take effect because its bytes land in an owed payload or nothing is written falls back to a peer close), no control call after it, every owned \
              send/ready/release/chunk future resolved, no clean end of an incomplete payload, every handler finished or dropped and none dropped before the held Stop was handled, connection task finished, no panic. \
              In addition proptest-generated base histories of 2..17 sink / inbound operations (the operation set of C08 without closes) on send windows 1..3, ended by a generated cause, under the same oracle. \
